@@ -142,6 +142,14 @@ def single_pass_pairing(ctx: Ctx) -> None:
         it_arg = zips[0].args[1].args[1] if zips and len(zips[0].args[1].args) > 1 else None
         (ctx.ok if good else ctx.bad)(R, f, zips[0] if zips else f.node, f'zip({norm(zips[0].args[0])}, executor.map(..., {norm(it_arg)}, ...))' if good else
                                       'labels are not zipped with executor.map results', key=f'zip:{qual.split(".", 1)[1]}')
+        # every other pairing of the label list in the helper must be of that same form: the list is filled as a side effect of consuming the argument
+        # generator, which Executor.map does eagerly on submission; the builtin map / a generator expression is lazy, so zip meets an empty list and stops
+        label_names = {zips[0].args[0].id} if zips and isinstance(zips[0].args[0], ast.Name) else set()
+        others = [c for c in ast.walk(f.node) if isinstance(c, ast.Call) and call_name(c) == 'zip' and c.args and isinstance(c.args[0], ast.Name) and c.args[0].id in label_names
+                  and not any(c is z for z in zips)]
+        for i_o, o in enumerate(others):
+            ctx.bad(R, f, o, f'`{norm(o)[:70]}` pairs the label list with something other than an Executor.map over the argument generator: the list is still empty when zip '
+                    'asks for its first element (the result is silently empty and no task runs)', key=f'zip-other:{qual.split(".", 1)[1]}#{i_o}')
 
 
 def _feeds_pool(f: FuncInfo) -> bool:
